@@ -492,6 +492,268 @@ theorem finv_drop {faults0 : List Attempt} {s : St} (h : FInv faults0 s) : FInv 
   split
   all_goals exact ⟨h1, h2⟩
 
+
+
+/-! ### a final failure reaches the consumer -/
+
+/-- The failure `e` is on its way to the consumer, or has arrived, or the consumer is gone. -/
+def Surfaced (s : St) (e : String) : Prop :=
+  s.errs = [e] ∨ s.ctorErr = some e ∨ s.chan = some (.err e) ∨ s.pc = .send (.err e) none ∨ s.rx = .dropped
+
+structure SInv (faults0 : List Attempt) (s : St) : Prop where
+  failed : ∃ pre, faults0 = pre ++ s.faults ∧ ∀ e, Attempt.fail e ∈ pre → Surfaced s e
+
+theorem sinv_init (pages : List Page) (faults : List Attempt) : SInv faults (init pages faults) :=
+  ⟨⟨[], by simp [init]⟩⟩
+
+private theorem consumed_tail' {faults0 pre : List Attempt} {fs : List Attempt}
+    (h : faults0 = pre ++ fs) : faults0 = (pre ++ fs.head?.toList) ++ fs.tail := by
+  cases fs <;> simp [h]
+
+/-- While the producer is still fetching, no final failure has been consumed (unless the pager was dropped). -/
+private theorem no_fail_while_fetching {pages : List Page} {s : St} (hc : CInv pages s) {e : String}
+    (hs : Surfaced s e) (hpc : s.pc = .first ∨ ∃ st, s.pc = .fetch st) : s.rx = .dropped := by
+  rcases hs with h | h | h | h | h
+  · have := (hc.errs_q (by simp [h])).1
+    rcases hpc with hp | ⟨st, hp⟩ <;> simp [hp] at this
+  · have := (hc.ctor (by simp [h])).2
+    rcases hpc with hp | ⟨st, hp⟩ <;> simp [hp] at this
+  · have := hc.chan_err (by simp [chanErr, h])
+    rcases hpc with hp | ⟨st, hp⟩ <;> simp [hp] at this
+  · rcases hpc with hp | ⟨st, hp⟩ <;> simp [hp] at h
+  · exact h
+
+theorem sinv_prod {pages : List Page} {faults0 : List Attempt} {s : St} (hc : CInv pages s)
+    (h : SInv faults0 s) : SInv faults0 (stepProd s) := by
+  obtain ⟨pre, hpre, hf⟩ := h.failed
+  have hcons := consumed_tail' hpre
+  have hhead : ∀ a, s.faults.headD .ok = a → ∀ e, Attempt.fail e ∈ s.faults.head?.toList → a = .fail e := by
+    intro a h e he
+    cases hfs : s.faults with
+    | nil => simp [hfs] at he
+    | cons x t => simp [hfs] at h he; rw [← h, he]
+  unfold stepProd
+  split
+  next hpc =>
+    have hrx : s.rx = .unbuilt := hc.first_unbuilt hpc
+    have hold : ∀ e, Attempt.fail e ∈ pre → False := by
+      intro e he
+      have := no_fail_while_fetching hc (hf e he) (Or.inl hpc)
+      simp [hrx] at this
+    split
+    next hh =>
+      refine ⟨⟨_, hcons, ?_⟩⟩
+      intro e he
+      rcases List.mem_append.mp he with h1 | h1
+      · exact absurd h1 (hold e)
+      · have := hhead _ hh e h1; simp at this
+    next e0 hh =>
+      refine ⟨⟨_, hcons, ?_⟩⟩
+      intro e he
+      rcases List.mem_append.mp he with h1 | h1
+      · exact absurd h1 (hold e)
+      · have := hhead _ hh e h1
+        simp only [Attempt.fail.injEq] at this
+        right; left; simp [this]
+    next hh =>
+      refine ⟨⟨_, hcons, ?_⟩⟩
+      intro e he
+      rcases List.mem_append.mp he with h1 | h1
+      · exact absurd h1 (hold e)
+      · have := hhead _ hh e h1; simp at this
+    next hh =>
+      refine ⟨⟨_, hcons, ?_⟩⟩
+      intro e he
+      rcases List.mem_append.mp he with h1 | h1
+      · exact absurd h1 (hold e)
+      · have := hhead _ hh e h1; simp at this
+  next st hpc =>
+    have hold : ∀ e, Attempt.fail e ∈ pre → s.rx = .dropped := fun e he =>
+      no_fail_while_fetching hc (hf e he) (Or.inr ⟨st, hpc⟩)
+    split
+    next hh =>
+      refine ⟨⟨_, hcons, ?_⟩⟩
+      intro e he
+      rcases List.mem_append.mp he with h1 | h1
+      · exact Or.inr (Or.inr (Or.inr (Or.inr (hold e h1))))
+      · have := hhead _ hh e h1; simp at this
+    next e0 hh =>
+      refine ⟨⟨_, hcons, ?_⟩⟩
+      intro e he
+      rcases List.mem_append.mp he with h1 | h1
+      · exact Or.inr (Or.inr (Or.inr (Or.inr (hold e h1))))
+      · have := hhead _ hh e h1
+        simp only [Attempt.fail.injEq] at this
+        right; right; right; left; simp [this]
+    next hh =>
+      refine ⟨⟨_, hcons, ?_⟩⟩
+      intro e he
+      rcases List.mem_append.mp he with h1 | h1
+      · exact Or.inr (Or.inr (Or.inr (Or.inr (hold e h1))))
+      · have := hhead _ hh e h1; simp at this
+    next hh =>
+      refine ⟨⟨_, hcons, ?_⟩⟩
+      intro e he
+      rcases List.mem_append.mp he with h1 | h1
+      · exact Or.inr (Or.inr (Or.inr (Or.inr (hold e h1))))
+      · have := hhead _ hh e h1; simp at this
+  next it nx hpc =>
+    split
+    next hrx =>
+      exact ⟨⟨pre, hpre, fun e he => Or.inr (Or.inr (Or.inr (Or.inr hrx)))⟩⟩
+    next hrx =>
+      split
+      · exact ⟨⟨pre, hpre, hf⟩⟩
+      next hch =>
+        refine ⟨⟨pre, hpre, ?_⟩⟩
+        intro e he
+        rcases hf e he with h | h | h | h | h
+        · have := (hc.errs_q (by simp [h])).1; simp [hpc] at this
+        · have := (hc.ctor (by simp [h])).2; simp [hpc] at this
+        · simp [hch] at h
+        · rw [hpc] at h
+          simp only [PC.send.injEq] at h
+          right; right; left; simp [h.1]
+        · exact absurd h (by simpa using hrx)
+  next => exact ⟨⟨pre, hpre, hf⟩⟩
+
+theorem sinv_poll {pages : List Page} {faults0 : List Attempt} {s : St} (hc : CInv pages s)
+    (h : SInv faults0 s) : SInv faults0 (stepPoll s) := by
+  obtain ⟨pre, hpre, hf⟩ := h.failed
+  unfold stepPoll
+  split
+  next hrx =>
+    split
+    next r rest hcur => exact ⟨⟨pre, hpre, hf⟩⟩
+    next hcur =>
+      split
+      next hch =>
+        refine ⟨⟨pre, hpre, ?_⟩⟩
+        intro e he
+        rcases hf e he with h | h | h | h | h
+        · exact Or.inl h
+        · exact Or.inr (Or.inl h)
+        · simp [hch] at h
+        · exact Or.inr (Or.inr (Or.inr (Or.inl h)))
+        · exact Or.inr (Or.inr (Or.inr (Or.inr h)))
+      next r rest hch =>
+        refine ⟨⟨pre, hpre, ?_⟩⟩
+        intro e he
+        rcases hf e he with h | h | h | h | h
+        · exact Or.inl h
+        · exact Or.inr (Or.inl h)
+        · simp [hch] at h
+        · exact Or.inr (Or.inr (Or.inr (Or.inl h)))
+        · exact Or.inr (Or.inr (Or.inr (Or.inr h)))
+      next e0 hch =>
+        refine ⟨⟨pre, hpre, ?_⟩⟩
+        intro e he
+        have hpc := hc.chan_err (by simp [chanErr, hch])
+        have herrs : s.errs = [] := by
+          cases hs : s.errs with
+          | nil => rfl
+          | cons a b => have := (hc.errs_q (by simp [hs])).2.1; simp [hch] at this
+        rcases hf e he with h | h | h | h | h
+        · simp [herrs] at h
+        · have := (hc.ctor (by simp [h])).1; simp [hrx] at this
+        · simp only [hch, Option.some.injEq, Item.err.injEq] at h
+          left; simp [herrs, h]
+        · simp [hpc] at h
+        · simp [hrx] at h
+      next hch =>
+        split
+        · exact ⟨⟨pre, hpre, hf⟩⟩
+        · exact ⟨⟨pre, hpre, hf⟩⟩
+  next => exact ⟨⟨pre, hpre, hf⟩⟩
+
+theorem sinv_drop {faults0 : List Attempt} {s : St} (h : SInv faults0 s) : SInv faults0 (stepDrop s) := by
+  obtain ⟨pre, hpre, hf⟩ := h.failed
+  unfold stepDrop
+  split
+  · exact ⟨⟨pre, hpre, fun e he => Or.inr (Or.inr (Or.inr (Or.inr rfl)))⟩⟩
+  · exact ⟨⟨pre, hpre, hf⟩⟩
+
+
+
+/-! ### only pages the server announced are ever asked for -/
+
+/-- Every page before `k` came with a paging state (so page `k` exists from the server's point of view). -/
+def Reach (pages : List Page) (k : Nat) : Prop := ∀ j, j < k → (pageAt pages j).2 ≠ none
+
+theorem reach_zero (pages : List Page) : Reach pages 0 := fun j h => absurd h (Nat.not_lt_zero j)
+
+theorem reach_succ {pages : List Page} {k : Nat} (h : Reach pages k) (hk : (pageAt pages k).2 ≠ none) :
+    Reach pages (k + 1) := by
+  intro j hj
+  rcases Nat.lt_succ_iff_lt_or_eq.mp hj with h1 | h1
+  · exact h j h1
+  · rw [h1]; exact hk
+
+structure RInv (pages : List Page) (s : St) : Prop where
+  log_reach : ∀ e ∈ s.log, Reach pages e.1
+  pc_reach : continuing s.pc = true → Reach pages s.served
+
+theorem rinv_init (pages : List Page) (faults : List Attempt) : RInv pages (init pages faults) :=
+  ⟨by simp [init], fun _ => by simpa [init] using reach_zero pages⟩
+
+theorem rinv_prod {pages : List Page} {s : St} (hA : PInvA pages s) (h : RInv pages s) :
+    RInv pages (stepProd s) := by
+  obtain ⟨h1, h2⟩ := h
+  have hhd : s.todo.headD ([], none) = pageAt pages s.served := by rw [hA.todo_eq, headD_drop]
+  have hlog : ∀ st : Option PState, continuing s.pc = true →
+      ∀ e ∈ s.log ++ [(s.served, st)], Reach pages e.1 := by
+    intro st hc e he
+    simp only [List.mem_append, List.mem_singleton] at he
+    rcases he with he | he
+    · exact h1 e he
+    · rw [he]; exact h2 hc
+  unfold stepProd
+  split
+  next hpc =>
+    have hc : continuing s.pc = true := by simp [hpc, continuing]
+    split
+    · exact ⟨hlog _ hc, fun _ => h2 hc⟩
+    · exact ⟨hlog _ hc, by simp [continuing]⟩
+    · exact ⟨hlog _ hc, by simp [continuing]⟩
+    · refine ⟨hlog _ hc, ?_⟩
+      simp only [hhd]
+      cases hp : (pageAt pages s.served).2 with
+      | none => simp [pcAfter, continuing]
+      | some st => intro _; exact reach_succ (h2 hc) (by simp [hp])
+  next st hpc =>
+    have hc : continuing s.pc = true := by simp [hpc, continuing]
+    split
+    · exact ⟨hlog _ hc, fun _ => h2 hc⟩
+    · exact ⟨hlog _ hc, by simp [continuing]⟩
+    · exact ⟨hlog _ hc, by simp [continuing]⟩
+    · refine ⟨hlog _ hc, ?_⟩
+      simp only [hhd]
+      cases hp : (pageAt pages s.served).2 with
+      | none => simp [continuing]
+      | some st => intro _; exact reach_succ (h2 hc) (by simp [hp])
+  next it nx hpc =>
+    split
+    · exact ⟨h1, by simp [continuing]⟩
+    · split
+      · exact ⟨h1, h2⟩
+      · refine ⟨h1, ?_⟩
+        cases nx with
+        | none => simp [pcAfter, continuing]
+        | some st => intro _; exact h2 (by simp [hpc, continuing])
+  next => exact ⟨h1, h2⟩
+
+theorem rinv_poll {pages : List Page} {s : St} (h : RInv pages s) : RInv pages (stepPoll s) := by
+  obtain ⟨h1, h2⟩ := h
+  unfold stepPoll
+  repeat' split
+  all_goals exact ⟨h1, h2⟩
+
+theorem rinv_drop {pages : List Page} {s : St} (h : RInv pages s) : RInv pages (stepDrop s) := by
+  obtain ⟨h1, h2⟩ := h
+  unfold stepDrop
+  split
+  all_goals exact ⟨h1, h2⟩
+
 /-! ### the whole invariant, for every schedule -/
 
 structure Inv (pages : List Page) (faults0 : List Attempt) (s : St) : Prop where
@@ -499,16 +761,19 @@ structure Inv (pages : List Page) (faults0 : List Attempt) (s : St) : Prop where
   b : PInvB pages s
   c : CInv pages s
   f : FInv faults0 s
+  sv : SInv faults0 s
+  rc : RInv pages s
 
 theorem inv_init (pages : List Page) (faults : List Attempt) : Inv pages faults (init pages faults) :=
-  ⟨pinvA_init _ _, pinvB_init _ _, cinv_init _ _, finv_init _ _⟩
+  ⟨pinvA_init _ _, pinvB_init _ _, cinv_init _ _, finv_init _ _, sinv_init _ _, rinv_init _ _⟩
 
 theorem inv_step {pages : List Page} {faults0 : List Attempt} {s : St} (h : Inv pages faults0 s) (op : Op) :
     Inv pages faults0 (step s op) := by
   cases op
-  · exact ⟨pinvA_prod h.a, pinvB_prod h.a h.b, cinv_prod h.a h.b h.c, finv_prod h.a h.f⟩
-  · exact ⟨pinvA_poll h.a, pinvB_poll h.b, cinv_poll h.b h.c, finv_poll h.f⟩
-  · exact ⟨pinvA_drop h.a, pinvB_drop h.b, cinv_drop h.c, finv_drop h.f⟩
+  · exact ⟨pinvA_prod h.a, pinvB_prod h.a h.b, cinv_prod h.a h.b h.c, finv_prod h.a h.f,
+      sinv_prod h.c h.sv, rinv_prod h.a h.rc⟩
+  · exact ⟨pinvA_poll h.a, pinvB_poll h.b, cinv_poll h.b h.c, finv_poll h.f, sinv_poll h.c h.sv, rinv_poll h.rc⟩
+  · exact ⟨pinvA_drop h.a, pinvB_drop h.b, cinv_drop h.c, finv_drop h.f, sinv_drop h.sv, rinv_drop h.rc⟩
 
 theorem inv_run {pages : List Page} {faults0 : List Attempt} {s : St} (h : Inv pages faults0 s) (ops : List Op) :
     Inv pages faults0 (run s ops) := by
@@ -892,5 +1157,32 @@ theorem quiet_run {s0 s : St} (h : Quiet s0 s) (ops : List Op) : Quiet s0 (run s
   induction ops generalizing s with
   | nil => exact h
   | cons op ops ih => exact ih (quiet_step h op)
+
+/-! ### drop-free schedules; the measure never grows -/
+
+theorem run_no_drop_rx : ∀ (ops : List Op) (s : St), Op.drop ∉ ops → s.rx ≠ .dropped → (run s ops).rx ≠ .dropped := by
+  intro ops
+  induction ops with
+  | nil => intro s _ h; exact h
+  | cons op ops ih =>
+    intro s hnd h
+    simp only [List.mem_cons, not_or] at hnd
+    refine ih (step s op) hnd.2 ?_
+    cases op
+    · exact prod_rx s h
+    · simp only [step]; rw [poll_rx]; exact h
+    · exact absurd rfl hnd.1
+
+theorem measure_run_le (ops : List Op) (s : St) : measure (run s ops) ≤ measure s := by
+  induction ops generalizing s with
+  | nil => exact Nat.le_refl _
+  | cons op ops ih =>
+    have h1 : measure (run s (op :: ops)) ≤ measure (step s op) := ih (step s op)
+    rcases step_decreases s op with h2 | h2
+    · exact Nat.le_trans h1 (Nat.le_of_lt h2)
+    · rw [h2] at h1; exact h1
+
+theorem run_append (s : St) (a b : List Op) : run s (a ++ b) = run (run s a) b := by
+  simp [run, List.foldl_append]
 
 end ScyllaVerif.Pager
